@@ -480,7 +480,8 @@ static int make_unix_listener(World &w) {
 static void dump_state(const char *when) {
   if (!verif_trace_on) return;
   for (int i = 0; i < 2; i++) { End &e = W->e[i]; if (!e.live) { TR("    [%s] %c freed", when, 'A' + i); continue; }
-    std::string l; char b[96]; for (int k = e.nl - 1; k >= 0; k--) { snprintf(b, sizeof b, " L%d(in=%zu out=%zu en=0x%x rs=0x%x ws=0x%x)", k, inlen(e.L[k].bev), outlen(e.L[k].bev), (int)bufferevent_get_enabled(e.L[k].bev), (int)BEV_UPCAST(e.L[k].bev)->read_suspended, (int)BEV_UPCAST(e.L[k].bev)->write_suspended); l += b; }
+    std::string l; char b[160]; for (int k = e.nl - 1; k >= 0; k--) { snprintf(b, sizeof b, " L%d(in=%zu out=%zu en=0x%x rs=0x%x ws=0x%x pend=%d/%d)", k, inlen(e.L[k].bev), outlen(e.L[k].bev), (int)bufferevent_get_enabled(e.L[k].bev), (int)BEV_UPCAST(e.L[k].bev)->read_suspended, (int)BEV_UPCAST(e.L[k].bev)->write_suspended,
+      event_initialized(&e.L[k].bev->ev_read) ? event_pending(&e.L[k].bev->ev_read, EV_READ, nullptr) : -1, event_initialized(&e.L[k].bev->ev_write) ? event_pending(&e.L[k].bev->ev_write, EV_WRITE, nullptr) : -1); l += b; }
     TR("    [%s] %c written=%llu consumed=%llu wire_sent=%llu wire_recv=%llu%s", when, 'A' + i, (unsigned long long)e.written, (unsigned long long)e.consumed, (unsigned long long)W->wire_sent[i], (unsigned long long)W->wire_recv[i], l.c_str()); }
 }
 static void post_op(const char *when) {
